@@ -234,6 +234,7 @@ def gen_triple(g):
             names_as = "prefix"          # names="q": expands to q0 .. q(n-1)
     return {"names": names, "rows": rows, "coefs": G.nested_map(G.jnum, coefs), "kind": kind,
             "shape": list(shape), "defect": defect, "names_as": names_as,
+            "readonly": rng.random() < 0.2,
             "retain_coefficients": rng.choice([True, False]), "retain_names": rng.choice([True, False]),
             "how": rng.choice(["explicit", "explicit", "options", "clean", "clean_options", "method",
                                "explicit_vs_global", "explicit_vs_global", "clean_vs_global"])}
@@ -246,6 +247,10 @@ def run_triple(case, ctx):
     shape = tuple(case["shape"])
     dtype = G.DTYPE_OF_KIND[case["kind"]]
     coefs = [numpy.array(G.unj_nested(c), dtype=dtype).reshape(shape) for c in case["coefs"]]
+    if case.get("readonly"):
+        # write-protected (contiguous, native-dtype) coefficient arrays are ordinary input
+        for c in coefs:
+            c.setflags(write=False)
     rc, rn = case["retain_coefficients"], case["retain_names"]
     how = case["how"]
     facts = {"op": "from_attributes:" + how, "retain_coefficients": rc, "retain_names": rn,
